@@ -205,6 +205,18 @@ def gen_case_the(rng, tier):
     c['sel'] = [['var', k] for k in sel]
     c['form'] = 'entity' if len(sel) == 1 and rng.random() < 0.5 else 'set_of'
     c['quant'] = 'the'
+    if rng.random() < 0.15:
+        # PREDICATE FORM handed to the quantifier directly: the(P(From(domain), a=v[, b=w])) - the term is already quantified when
+        # the(...) receives it; it still has to return THE solution or raise
+        c['doms'] = [c['doms'][0]]
+        k = c['doms'][0][0]
+        dom = c['doms'][0][1]
+        fs = rng.sample(['a', 'b'], rng.choice([1, 1, 2]))
+        o = c['heap'][rng.choice(dom)] if dom and rng.random() < 0.7 else None
+        eqs = [['cmp', '==', ['map', ['f', F[f]], ['var', k]], ['lit', o[F[f]] if o is not None else rng.randint(0, 3)]] for f in fs]
+        c['cond'] = eqs[0] if len(eqs) == 1 else ['and', eqs[0], eqs[1], 'fn']
+        c['sel'], c['binders'], c['form'] = [['var', k]], [['var', k]], 'pred'
+        return c
     if rng.random() < 0.12:
         # a description without any condition: the domain itself decides (none / one / several members)
         c['cond'] = None
